@@ -249,6 +249,7 @@ def session_oracle(case, line):
     grant = [0] * n
     sgrant = [0] * n
     G = [t[3] + t[4] + t[5] + t[6] for t in toks]
+    seg = [0, 0, 0]
     maxg = toks[0][10]       # the enabling tick (one second's worth) happened before the measurement
     for k in range(1, n):
         t, p = toks[k], toks[k - 1]
@@ -258,13 +259,18 @@ def session_oracle(case, line):
             grant[k] = el * t[10] // 10**6
             sgrant[k] = min(grant[k], el * t[12] // 10**6) if t[12] else grant[k]
             maxg = max(maxg, grant[k])
-        # consumer tie: between ticks the throttle's books move by exactly what the connection moved
-        # (payload reported through node_used, the 13-byte headers through node_used_unthrottled)
+        # consumer tie: between ticks the throttle's books move by what the connection moved (payload reported
+        # through node_used, the 13-byte headers through node_used_unthrottled). Accumulated over each tick-free
+        # segment; slack = bytes the kernel accepted in one step but delivered to the peer in the next (two blocks).
         if grant[k] == 0 and t[10] == p[10] and t[10] != 0:
-            d = G[k - 1] - G[k]
-            if d < pay[k] or d > t[1]:
-                bad.append(("session-consumer-report", "step ending %d us: the peer received %d bytes (>= %d payload) but the throttle's books moved by %d" % (t[0], t[1], pay[k], d)))
+            seg[0] += G[k - 1] - G[k]
+            seg[1] += pay[k]
+            seg[2] += t[1]
+            if seg[0] + 2 * 16397 < seg[1] or seg[0] > seg[2] + 2 * 16397:
+                bad.append(("session-consumer-report", "tick-free segment ending %d us: the peer received %d bytes (>= %d payload) but the throttle's books moved by %d" % (t[0], seg[2], seg[1], seg[0])))
                 break
+        else:
+            seg = [0, 0, 0]
         if t[10] != 0 and G[k] > 65536 * (t[7] + t[8]) + 3 * nthr * max(maxg, 1) + 65536:
             bad.append(("session-burst", "at %d us the throttles hold %d, above the fixed burst allowance" % (t[0], G[k])))
             break
@@ -296,10 +302,23 @@ def session_oracle(case, line):
     if all(t[10] == 0 for t in toks[1:]):
         if any(t[2] < 20 for t in toks[1:]) and "blocks=192/192" not in tail:
             bad.append(("session-held-back", "unlimited upload did not serve the outstanding requests"))
-    elif all(t[10] != 0 for t in toks) and not use_slave:
-        g = sum(grant)
-        if total_pay + 65536 + 2 * maxg < g * 7 // 10:
-            bad.append(("session-held-back", "only %d payload bytes moved although the ticks granted %d" % (total_pay, g)))
+    elif "blocks=192/192" not in tail:
+        # reactivation on the real path: with requests outstanding the deactivated connection is activated again;
+        # no stretch of 4 consecutive ticks of a limited root (outside the scripted idle phase) moves nothing
+        idle_us = int(dict(x.split("=") for x in case.split()).get("idle", 0)) * 10**6
+        ticks = moved = 0
+        for k in range(1, n):
+            if toks[k][10] == 0 or toks[k][0] <= idle_us + 10**6:
+                ticks = moved = 0
+                continue
+            moved += pay[k]
+            if grant[k] >= 4096:
+                ticks += 1
+                if ticks >= 4 and moved == 0:
+                    bad.append(("session-held-back", "no payload over 4 consecutive ticks ending at %d us although requests are outstanding" % toks[k][0]))
+                    break
+                if moved:
+                    ticks = moved = 0
     return bad, dict(steps=n - 1, payload=total_pay, granted=sum(grant))
 
 
@@ -327,8 +346,11 @@ def run(rep, tier, seed, replay):
                        "modelled not verified: per-node Rate (only its bytes > 2^28 throw, which coincides with the list's), "
                        "the scheduler entry of the tick task (receive_tick is called directly with a controlled clock), "
                        "slaves of slaves (create_slave only on the root), std::list as two Coq lists (active ++ inactive)",
-                       "python oracle props/c12.py (conservation, no creation of quota, tick grant bound, disabled = unlimited) "
-                       "evaluated on implementation outputs"]))
+                       "python oracle props/c12.py (conservation, no creation of quota, tick grant bound, carry-over cap, fixed burst, "
+                       "disabled = unlimited) evaluated on implementation outputs",
+                       "session-level cross-check harness/c12s.cc + harness/common/session.* + wirepeer.h (real up_chunk/node_quota/"
+                       "node_used/node_deactivate under a global upload limit, virtual clock): rate_bound_hierarchy and the "
+                       "consumer accounting are evaluated on the real trace by python (not compared with the extracted model)"]))
     model = ltv.build_model("C12")
     impl = ltv.build_harness("c12", ["c12.cc"])
     if replay and json.load(open(replay))["case"].startswith("SESSION "):
